@@ -316,11 +316,37 @@ fn run(case: &Case, cx: &mut Cx) -> CaseResult {
     Ok(())
 }
 
+/// Scale probe (see probes.rs): the four-way agreement on a 10 012-file tree with one
+/// entry per hunk, with name globs that hit entries in every hunk range.
+fn enumerate(_tier: Tier, idx: u32, of: u32, cx: &mut Cx) -> CaseResult {
+    if !crate::probes::mine(idx, of) {
+        return Ok(());
+    }
+    let (opts, tree) = crate::probes::many_hunks_tree(10_012);
+    let sub = cx.dir("many-hunks");
+    std::fs::create_dir_all(&sub).unwrap();
+    let mut cx2 = crate::engine::sub_cx(cx, sub.clone());
+    let case = Case {
+        opts: Opts { hunk: 10, ..opts },
+        tree,
+        patterns: vec!["*7".to_string(), "/w0/f0001*".to_string(), "w1/f1000?".to_string()],
+    };
+    crate::engine::heartbeat();
+    run(&case, &mut cx2).map_err(|mut f| {
+        f.signature = format!("{}/probe-many-hunks", f.signature);
+        f
+    })?;
+    crate::engine::force_remove(&sub);
+    cx.add_evals(1);
+    cx.inner_nontrivial += 1;
+    Ok(())
+}
+
 pub fn prop() -> Prop<Case> {
     Prop {
         id: "C15",
         level: "exploration",
-        rule: "case = (options, tree, 0-4 patterns built from the tree's own names and paths: anchored/unanchored x components of {literal, *, ?..., prefix*, *suffix, [xz]rest, [!xz]rest, **}); four path sets below the root must coincide: entries decoded independently from backup(exclude=E), listing of a full backup with E, paths created by restoring the full backup with E, and the model rule 'omitted iff it or an ancestor matches a pattern' (anchored = whole path, unanchored = any component-boundary suffix; one-glob-vs-one-string matching delegated to the globset crate). Non-trivial = E excludes >=1 and keeps >=1 entry and some entry is excluded only through an ancestor; distinct by case hash",
+        rule: "case = (options, tree, 0-4 patterns built from the tree's own names and paths: anchored/unanchored x components of {literal, *, ?..., prefix*, *suffix, [xz]rest, [!xz]rest, **}); four path sets below the root must coincide: entries decoded independently from backup(exclude=E), listing of a full backup with E, paths created by restoring the full backup with E, and the model rule 'omitted iff it or an ancestor matches a pattern' (anchored = whole path, unanchored = any component-boundary suffix; one-glob-vs-one-string matching delegated to the globset crate). Non-trivial = E excludes >=1 and keeps >=1 entry and some entry is excluded only through an ancestor; distinct by case hash; plus one fixed scale probe (10 012 files, 10 entries per hunk, three name globs)",
         assumptions: &[
             "single-pattern matching is delegated to the third-party globset crate (not conserve code); what is checked is conserve's pattern expansion, the pruning walk and the per-entry filters",
             "names contain no glob metacharacters; only patterns globset accepts are generated",
@@ -328,7 +354,7 @@ pub fn prop() -> Prop<Case> {
         cases: |t| t.pick(2000, 100_000),
         strategy,
         run,
-        enumerate: None,
+        enumerate: Some(enumerate),
         exhaustive: |_| false,
         max_shrink_iters: 400,
     }
